@@ -364,6 +364,16 @@ func parseRule(node *yaml.Node, offsetLine, offsetColumn int, contentLines []str
 		if entry.part != nil && !isTag(entry.part.ShortTag(), strTag) {
 			return invalidValueError(lines, entry.part.Line+offsetLine, entry.key, describeTag(strTag), describeTag(entry.part.ShortTag()))
 		}
+		if entry.part != nil && entry.part.ShortTag() == nullTag && entry.part.Value != "" {
+			// `record: ~` or `expr: null` is the same as `record:` or `expr:`, there is no value.
+			return Rule{
+				Lines: lines,
+				Error: ParseError{
+					Line: entry.part.Line + offsetLine,
+					Err:  fmt.Errorf("%s value cannot be empty", entry.key),
+				},
+			}, false
+		}
 	}
 
 	for _, entry := range []struct {
